@@ -298,6 +298,9 @@ def main(chk):
     ob_membership(chk, ir, 1, 2, (0, 2, 4) if quick else range(0, 5))
     if not quick: ob_membership(chk, ir, 2, 1, (0, 1, 3, 4))
     ob_daemon_asks_about_peer(chk, ir)
+    # 'only if': the other certificate branch of checkAuth must not admit an address-restricted leaf at all (shared with C06 / C01)
+    from checks.c06 import ob_kmsigned
+    ob_kmsigned(chk, ir)
     ob_refresh(chk, ir)
     gate.gate_lemma(chk, ir, am.IPCERT, 'required=IPCertificate (refresh endpoint)', cookies=[0, 1], obligation='refresh-gate', interest=am.IPCERT)
 
